@@ -35,6 +35,7 @@ def mapping_of(sheet):
 class World:
     def __init__(self):
         self.sheet = css.CSSStyleSheet()
+        self.comments = False
         self.tracked = []   # dicts: id, ver, obj, form
 
     def all_style_rules(self):
@@ -85,7 +86,8 @@ class World:
     def apply(self, a):
         s, op = self.sheet, a["op"]
         if op in ("addns", "insertns"):
-            txt = '@namespace %s "%s";' % (a["p"], a["u"]) if a["p"] else '@namespace "%s";' % a["u"]
+            cm = "/*c*/ " if self.comments else ""       # variant: a comment between the keyword and the prefix
+            txt = '@namespace %s%s "%s";' % (cm, a["p"], a["u"]) if a["p"] else '@namespace %s"%s";' % (cm, a["u"])
             x = txt if a.get("how", "text") == "text" else css.CSSNamespaceRule(namespaceURI=a["u"], prefix=a["p"])
             if op == "addns":
                 return outcome(lambda: s.add(x))
@@ -152,8 +154,38 @@ def run_trace(item):
     init()
     cssutils.ser.prefs.keepEmptyRules = True
     w = World()
+    w.comments = bool(item.get("comments"))
     tr = {"id": item["id"], "init": w.project(), "steps": []}
     for a in item["actions"]:
         out, _ = w.apply(a)
         tr["steps"].append({"a": a, "out": out, "post": w.project()})
     return tr
+
+
+NS_TEXT = {"p": '@namespace p "%s";', "q": '@namespace q "%s";', "default": '@namespace "%s";'}
+
+
+def run_parse_row(item):
+    """a whole text in which an @namespace rule comes after a style rule, parsed the default (logging) way"""
+    init()
+    r = dict(item)
+    rid = r.pop("id")
+    use = FORM_TEXT[r["use"]] + " { top: 0 }"
+    if r["where"] == "media":
+        use = "@media print { %s }" % use
+    text = (NS_TEXT[r["declared"]] % "u1" + "\n" if r["declared"] != "none" else "") + "z { left: 0 }\n" + NS_TEXT[r["late"]] % "u2" + "\n" + use
+    o = {"out": "ok", "mapping": [], "present": False, "uri": "", "text": text}
+
+    def f():
+        sheet = cssutils.parseString(text)
+        cssutils.log.raiseExceptions = True
+        o["mapping"] = mapping_of(sheet)
+        rules = [x for x in World.styles(sheet) if x.selectorText != "z"]
+        o["present"] = bool(rules)
+        if rules:
+            its = items_of(rules[0], r["use"])
+            o["uri"] = its[0]["uri"] if its else "#noitem"
+    out, _ = outcome(f)
+    cssutils.log.raiseExceptions = True
+    o["out"] = out
+    return {"id": rid, "item": r, "init": {"x": 0}, "steps": [{"a": r, "out": "ok", "post": o}]}
